@@ -85,12 +85,19 @@ def entity(kind, path):
         return [D.var(T('double', 1), 'kVal' + s, '9.81')]
     if kind == 'serial':
         C = 'Se' + s
+        # a class without instance methods directly after a serializing one
         return [D.cls(C, [D.ctor(C), D.method(single(T('void')), 'serialize', [], 1), D.method(single(I), 'x', [], 1)]),
+                D.cls('St' + s, [D.ctor('St' + s), D.static(single(I), 'Count', []), D.prop(I, 'p')]),
                 D.cls('Sb' + s, [D.method(single(T('void')), 'serializable', [], 1), D.method(single(I), 'y', [], 1)])]
+    if kind == 'prefixnames':
+        # the (flattened) name of a later class is a prefix of an earlier one, and the other way round
+        return [D.cls('Pose' + s + '2', [D.ctor('Pose' + s + '2'), D.method(single(I), 'two', [], 1)], v=1),
+                D.cls('Pose' + s, [D.ctor('Pose' + s), D.method(single(I), 'one', [], 1)], v=1),
+                D.cls('Pose' + s + '2d', [D.ctor('Pose' + s + '2d')], v=1, b=T(q(path, 'Pose' + s + '2')))]
     raise ValueError(kind)
 
 
-KINDS = ['class_full', 'tclass', 'typedef', 'enumclass', 'derived', 'noctor', 'enum', 'func', 'tfunc', 'var', 'serial', 'samename']
+KINDS = ['class_full', 'tclass', 'typedef', 'enumclass', 'derived', 'noctor', 'enum', 'func', 'tfunc', 'var', 'serial', 'samename', 'prefixnames']
 
 
 def build(kinds):
